@@ -132,7 +132,8 @@ func runC09(b *mon.B) {
 		return
 	}
 	defer muxRef.Close()
-	soloRef.Net.KeepLog, muxRef.Net.KeepLog = false, false
+	soloRef.Net.SetKeepLog(false)
+	muxRef.Net.SetKeepLog(false)
 	caseNo := 0
 	overlapHashes := map[string]bool{}
 	remote := 0
@@ -156,7 +157,7 @@ func runC09(b *mon.B) {
 			var fresh *refsrv.Ref
 			if b.Thorough() && caseNo%25 == 0 {
 				if f, err := refsrv.Start(sc.Cfg, refsrv.Options{Keys: sc.Keys}); err == nil {
-					f.Net.KeepLog = false
+					f.Net.SetKeepLog(false)
 					fresh, ref = f, f
 				}
 			}
